@@ -68,7 +68,19 @@ def gen_records(rng, name, n):
             if letter == b"h" and sz > 12:
                 v += b".ex"
             mk[f] = v
-        raw += layouts.make_record(name, sec, usec, mk)
+        rec = bytearray(layouts.make_record(name, sec, usec, mk))
+        if i >= 6 and rng.random() < 0.3:
+            # (not among the first records: those are what the layout is recognised by, and bytes after a NUL count against a
+            # layout there)
+            # a reused struct: a shorter string copied over a longer earlier one leaves bytes after the terminating NUL. They
+            # belong to no value of this record and must not be shown
+            (f_, off_, sz_) = rng.choice(fields)
+            room = sz_ - len(mk[f_]) - 1
+            if room >= 2:
+                junk = bytes(rng.choice(b"qrsvwxyz/") for _ in range(rng.randint(1, min(room - 1, 12))))
+                at = off_ + len(mk[f_]) + 1 + rng.randrange(0, room - len(junk))
+                rec[at:at + len(junk)] = junk
+        raw += rec
         recs.append({"idx": i, "sec": sec, "usec": usec, "markers": mk})
     if rng.random() < 0.2:
         raw += layouts.null_record(name)
